@@ -139,7 +139,7 @@ class Item:
             self.objs['c_values'] = {x.id: float(x.value['C']) for x in c.components if x.type == 'capacitor'}
             self.objs['l_values'] = {x.id: float(x.value['L']) for x in c.components if x.type == 'inductance'}
             self.objs['tin'] = np.arange(self.desc['n'] + 1) * self.desc['h']
-            self.objs['input'] = {sid: C12.make_input(spec, self.desc['h']) for sid, spec in self.desc['inputs'].items()}
+            self.objs['input'] = {sid: C12.make_input(spec, self.desc['h'], 0.0) for sid, spec in self.desc['inputs'].items()}
 
     def _build_doc(self):
         self.objs['entries'] = copy.deepcopy(self.desc.get('entries'))
